@@ -55,6 +55,9 @@ pub struct Case {
     pub cred_srv: BSpec,
     pub pw: BSpec,
     pub tape: Tape,
+    /// pass clones of the parameter structs to the API (exercises their Clone impls)
+    #[serde(default)]
+    pub clone_params: bool,
 }
 
 fn pool_value() -> BoxedStrategy<V> {
@@ -180,6 +183,7 @@ pub fn strategy(_s: &'static dyn Proto) -> BoxedStrategy<Case> {
                 cred_srv: cred,
                 pw,
                 tape,
+                clone_params: false,
             }
         },
     );
@@ -218,6 +222,7 @@ pub fn strategy(_s: &'static dyn Proto) -> BoxedStrategy<Case> {
                 cred_srv,
                 pw,
                 tape,
+                clone_params: false,
             }
         },
     );
@@ -260,9 +265,15 @@ pub fn strategy(_s: &'static dyn Proto) -> BoxedStrategy<Case> {
                 cred_srv: cred,
                 pw,
                 tape,
+                clone_params: false,
             }
         });
-    prop_oneof![3 => equal, 6 => single, 3 => shifted].boxed()
+    (prop_oneof![3 => equal, 6 => single, 3 => shifted], any::<bool>())
+        .prop_map(|(mut c, cl)| {
+            c.clone_params = cl;
+            c
+        })
+        .boxed()
 }
 
 fn resolve(v: &V, own: &[u8], other: &[u8]) -> Option<Vec<u8>> {
@@ -276,6 +287,13 @@ fn resolve(v: &V, own: &[u8], other: &[u8]) -> Option<Vec<u8>> {
 
 pub fn check(s: &'static dyn Proto, c: &Case, st: &mut Stats, _k: &KnownFindings) -> CaseResult {
     ksf::set_default_spec(KsfSpec::Identity);
+    set_clone_params(c.clone_params);
+    let r = check_inner(s, c, st);
+    set_clone_params(false);
+    r
+}
+
+fn check_inner(s: &'static dyn Proto, c: &Case, st: &mut Stats) -> CaseResult {
     let m = s.meta();
     let pw = c.pw.bytes();
     let cred_reg = c.cred_reg.bytes();
